@@ -110,6 +110,13 @@ def gen_cases(tier, seed):
     for n in (1, 2):
         for dtype in ("float64", "float32"):
             cases.append(dict(kind="reject", n=n, dtype=dtype, seed=seed))
+    # tall matrices with a large common offset (added after a seeded change - Krum's distances computed with the matrix-
+    # multiplication formula, which torch.cdist only switches to above 25 rows - was missed): m in {26, 30}
+    for m in (26, 30):
+        for n in (1, 2):
+            for offset in (0.0, 1e3, 1e4):
+                for dtype in ("float64", "float32"):
+                    cases.append(dict(kind="tall", m=m, n=n, offset=offset, dtype=dtype))
     return cases
 
 
@@ -336,10 +343,41 @@ def _run_reject(acc, case):
             probe("Krum", lambda: Krum(n_byzantine=f, n_selected=k), max(f + 3, k), f"Krum({f},{k})")
 
 
+def _run_tall(acc, case):
+    """honest rows offset + small integers; every subset of <= 1 corrupted rows among {first, middle, last} x every corruption value;
+    TrimmedMean b in {r, 2, 5}, Krum f in {r, 2}, k in {1, 3, m - f}."""
+    import torch
+
+    m, n, off, dtype = case["m"], case["n"], case["offset"], case["dtype"]
+    dt = getattr(torch, dtype)
+    base = np.array([[off + ((7 * i + 3 * j) % 5) + (i % 3 == 0) * 0.5 for j in range(n)] for i in range(m)])
+    V = _values(n)
+    for S in [()] + [(p,) for p in (0, m // 2, m - 1)]:
+        keep = [i for i in range(m) if i not in S]
+        sigma = float(np.abs(base[keep]).max()) or 1.0
+        for vi in (range(len(V)) if S else [0]):
+            J = base.copy()
+            for pos in S:
+                J[pos] = V[vi] * sigma
+            Jt = torch.tensor(J, dtype=dt)
+            Jd = Jt.double().numpy()
+            r = len(S)
+            for b in sorted({r, 2, 5}):
+                _check_tm(acc, Jt, Jd, S, Jd[keep], sigma, b, dtype, False)
+            for f in sorted({r, 2}):
+                scores = R.krum_scores(Jd, f)
+                for k in sorted({1, 3, m - f}):
+                    _check_krum(acc, Jt, Jd, S, sigma, f, k, dtype, scores, True)
+            acc.nontriv += int(bool(S))
+
+
 def run_case(case):
     acc = _Acc()
     if case["kind"] == "reject":
         _run_reject(acc, case)
+        return acc.result()
+    if case["kind"] == "tall":
+        _run_tall(acc, case)
         return acc.result()
     m, n, S, dtype = case["m"], case["n"], tuple(case["S"]), case["dtype"]
     r = len(S)
